@@ -174,7 +174,7 @@ def _collect(tier):
                 f = {"property": prop, "clause": clause, "rule": r.get("rule", ""), "input": r["file"], "config": "fix_only:" + r["kind"],
                      "detail": {k2: r.get(k2) for k2 in ("sel", "fixedLines", "listedLines", "changedLines", "reportedLines", "untouched", "status")}}
             elif t == "robust":
-                f = {"property": prop, "clause": clause, "rule": r.get("site", "") or ",".join(r.get("rule_crashes", [])), "input": r["file"] + "#damaged:" + r["how"], "config": r["mode"] + " " + r["status"],
+                f = {"property": prop, "clause": clause, "rule": r.get("site", "") or ",".join(r.get("rule_crashes", [])), "input": r["file"] + ("#damaged:" + r["how"] if r["how"] != "none" else ""), "config": r["mode"] + " " + r["status"],
                      "detail": {"status": r["status"], "tail": r["tail"], "tb": r["tb"]}}
             elif t == "formats":
                 f = {"property": prop, "clause": clause, "rule": "", "input": "formats:" + r["cfgname"], "config": "-of " + r["of"],
